@@ -472,7 +472,7 @@ def _judge_held(ctx, role, got, expected, desc, listing_open, listing_now, cfg, 
     if got[0] == "ok":
         if got[1] != d0:
             parts = sorted(k for k in d0 if d0[k] != got[1].get(k))
-            if loose and gone and not (set(parts) - {"vectors", "column_n", "lexicon"}):
+            if loose and gone and not (set(p for p in parts if not p.startswith("column_")) - {"vectors", "lexicon"}):
                 # has_column()/has_vector() look the file name up at call time: once the loose
                 # segment's files are unlinked, columns and vectors silently disappear
                 ctx.violation("held-reader:lazy-lookup-of-unlinked-file:loose-segment:columns-or-vectors-vanish",
